@@ -181,6 +181,12 @@ fn exec(regs: &mut Regs, cx: &mut Cx, op: &Op) -> (String, Vec<usize>, Vec<usize
                     let Some((ann, ent, bytes)) = enc else {
                         return ("[encode-error]".into(), vec![i, *dst], vec![]);
                     };
+                    if *fmt >= 5 {
+                        // tok4..tok7: `deserialize_in_place` into the existing destination
+                        let ok = with_map!(&mut regs.m[*dst], x => ops::serde_rt::decode_in_place(&bytes, &mut x.c));
+                        let st = if ok { "ok" } else { "decode-error" };
+                        return (format!("[{},{},{}]", ann, ent, st), vec![i, *dst], vec![]);
+                    }
                     let c: Option<AnyMap> = match &regs.m[*dst] {
                         AnyMap::C0(_) => ops::serde_rt::decode_map::<0>(&bytes).map(|m| AnyMap::C0(regs::Caged::new(m))),
                         AnyMap::C1(_) => ops::serde_rt::decode_map::<1>(&bytes).map(|m| AnyMap::C1(regs::Caged::new(m))),
@@ -289,6 +295,11 @@ fn exec(regs: &mut Regs, cx: &mut Cx, op: &Op) -> (String, Vec<usize>, Vec<usize
                     let Some((ann, ent, bytes)) = enc else {
                         return ("[encode-error]".into(), vec![], vec![i, *dst]);
                     };
+                    if *fmt >= 5 {
+                        let ok = with_set!(&mut regs.s[*dst], x => ops::serde_rt::decode_in_place(&bytes, &mut x.c));
+                        let st = if ok { "ok" } else { "decode-error" };
+                        return (format!("[{},{},{}]", ann, ent, st), vec![], vec![i, *dst]);
+                    }
                     let c: Option<AnySet> = match &regs.s[*dst] {
                         AnySet::C0(_) => ops::serde_rt::decode_set::<0>(&bytes).map(|m| AnySet::C0(regs::Caged::new(m))),
                         AnySet::C1(_) => ops::serde_rt::decode_set::<1>(&bytes).map(|m| AnySet::C1(regs::Caged::new(m))),
